@@ -257,8 +257,8 @@ class Ctx:
                         frontier.append(m.group(1))
         foreign = []
         for v in sorted(COQ.rglob("*.v")):
-            if "Cases" in v.parts:
-                continue
+            if "Cases" in v.parts or re.search(r"(_tmp|Dbg|scratch|Scratch)", v.name):
+                continue  # scratch files are not part of the build (coq/build.sh skips the same names)
             try:
                 txt = _strip_coq_comments(v.read_text())
             except OSError:
